@@ -259,6 +259,34 @@ def systematic(rng, start_index):
                 text += g.out
                 msgs.append((name, kind, 0x0C00 + idx))
                 idx += 1
+    # array shapes: every array form (fixed count, counted by an earlier field, until the end of the message) over every element
+    # type the language allows in an array — integers of every width, Guid, PackedGuid (1-9 bytes per element), CString, a struct of
+    # constant size and a struct of variable size — with a member in front and, for the bounded forms, a member behind
+    for form in ("fixed", "counted", "endless"):
+        for elem in ("u8", "u16", "u32", "u64", "Guid", "PackedGuid", "CString", "struct-fixed", "struct-var"):
+            g = Gen(rng, idx)
+            g.names = names
+            if elem.startswith("struct"):
+                sname = g.tname("Vs")
+                members = [f"    u16 {g.name()};", f"    Guid {g.name()};"] if elem == "struct-fixed" else [f"    u8 {g.name()};", f"    CString {g.name()};", f"    PackedGuid {g.name()};"]
+                g.out.append(f"struct {sname} {{\n" + "\n".join(members) + "\n} {\n    versions = \"1.12\";\n}\n")
+                et = sname
+            else:
+                et = elem
+            body = f"    u32 {g.name()};\n"
+            if form == "fixed":
+                body += f"    {et}[3] {g.name()};\n    u8 {g.name()};\n"
+            elif form == "counted":
+                cnt = g.name()
+                body += f"    u8 {cnt};\n    {et}[{cnt}] {g.name()};\n    u16 {g.name()};\n"
+            else:
+                body += f"    {et}[-] {g.name()};\n"
+            kind = "smsg" if idx % 2 else "cmsg"
+            name = f"{kind.upper()}_VERIF_{g.name('').upper()}"
+            g.out.append(f"{kind} {name} = 0x{0x0C00 + idx:04X} {{\n{body}}} {{\n    versions = \"1.12\";\n}}\n")
+            text += g.out
+            msgs.append((name, kind, 0x0C00 + idx))
+            idx += 1
     return "\n".join(text), msgs
 
 
